@@ -699,6 +699,8 @@ func special(r *core.Run) {
 	// ("limits the number of successive macro expansions"), through evaluation and through macroexpand, at top
 	// level, inside a function and under a handler; the error is catchable and the runtime usable afterwards.
 	macroExact(r)
+	// (f) one top-level evaluation governed by several contexts in turn (a host builtin re-entering under a child context)
+	nestedContexts(r)
 }
 
 // macroPrelude defines c1..c7: (cK) expands to (cK-1), and (c1) expands to the datum 'done: K successive expansions.
